@@ -79,6 +79,9 @@ type EPConf struct {
 	// object (so that two configurations share one) instead of building one from Roots.
 	TimeYear int            `json:"time_year,omitempty"`
 	RootPool *x509.CertPool `json:"-"`
+	// OnVerify, if set, is installed as Config.VerifyConnection: it is told whether the handshake is a
+	// resumption and how many peer certificates the connection state shows at that moment
+	OnVerify func(resumed bool, peerCerts int) `json:"-"`
 	// OuterPMTU (Clone 2): the PMTU of the listener configuration, when it differs from the PMTU of the
 	// configuration GetConfigForClient returns (which is the one in force). ChainPad: that many copies of the CA
 	// certificate are appended to the first certificate's chain (a Certificate message above the record limit).
@@ -187,6 +190,10 @@ func (e *EPConf) BuildTLCP(env *Env, name string) *tlcp.Config {
 		DynamicRecordSizingDisabled: e.DynOff,
 		ClientECDHEParamsAsVector:   e.VecParams,
 	}
+	if e.OnVerify != nil {
+		f := e.OnVerify
+		c.VerifyConnection = func(cs tlcp.ConnectionState) error { f(cs.DidResume, len(cs.PeerCertificates)); return nil }
+	}
 	for i, n := range e.Certs {
 		chain := [][]byte{fix.DER(n)}
 		if i == 0 {
@@ -236,6 +243,10 @@ func (e *EPConf) BuildDTLCP(env *Env, name string) *dtlcp.Config {
 		c.CookieSecret = []byte(e.CookieSecret)
 	} else if e.CookieSecretEmpty {
 		c.CookieSecret = []byte{}
+	}
+	if e.OnVerify != nil {
+		f := e.OnVerify
+		c.VerifyConnection = func(cs dtlcp.ConnectionState) error { f(cs.DidResume, len(cs.PeerCertificates)); return nil }
 	}
 	for i, n := range e.Certs {
 		chain := [][]byte{fix.DER(n)}
